@@ -5,7 +5,7 @@ use crate::explore::{sweep, Budget};
 use crate::report::Report;
 use crate::runner::{ChildResult, Emitter, RunCfg};
 use crate::util::state_str;
-use open_coroutine_core::common::constants::CoroutineState;
+use open_coroutine_core::common::constants::{CoroutineState, SyscallName, SyscallState};
 use open_coroutine_core::coroutine::listener::Listener;
 use open_coroutine_core::coroutine::local::CoroutineLocal;
 use open_coroutine_core::coroutine::suspender::Suspender;
@@ -29,13 +29,18 @@ pub struct Case {
     panic_kind: u8,
     /// 0 = no listener, 1 = listener panicking in on_state_changed, 2 = panicking in every callback
     listener: u8,
+    /// what another coroutine did on this thread just before: 0 nothing, 1 cancelled itself,
+    /// 2 yielded with a delay, 3 yielded a value from inside a syscall state
+    pre: u8,
+    /// every suspend point is taken from inside a syscall state (value carried by the state)
+    sys: bool,
 }
 
 impl Case {
     fn to_json(&self) -> Value {
         json!({"args": self.args.iter().map(|x| x.to_string()).collect::<Vec<_>>(),
             "yields": self.yields.iter().map(|x| x.to_string()).collect::<Vec<_>>(),
-            "ret": self.ret.to_string(), "panic_at": self.panic_at, "panic_kind": self.panic_kind, "listener": self.listener})
+            "ret": self.ret.to_string(), "panic_at": self.panic_at, "panic_kind": self.panic_kind, "listener": self.listener, "pre": self.pre, "sys": self.sys})
     }
     fn from_json(v: &Value) -> Option<Case> {
         let nums = |k: &str| -> Option<Vec<i64>> {
@@ -48,6 +53,8 @@ impl Case {
             panic_at: v.get("panic_at").and_then(Value::as_u64).map(|x| x as usize),
             panic_kind: v.get("panic_kind")?.as_u64()? as u8,
             listener: v.get("listener")?.as_u64()? as u8,
+            pre: v.get("pre").and_then(Value::as_u64).unwrap_or(0) as u8,
+            sys: v.get("sys").and_then(Value::as_bool).unwrap_or(false),
         })
     }
 }
@@ -95,8 +102,38 @@ fn formatted_msg(k: usize) -> String {
     format!("formatted panic message #{k}")
 }
 
+type Typed = Coroutine<'static, i64, i64, i64>;
+
 pub fn exec(case: &Case, em: &mut Emitter) {
     std::panic::set_hook(Box::new(|_| {}));
+    open_coroutine_core::verif::clock_enable(1000);
+    if case.pre > 0 {
+        let pre = case.pre;
+        let mut other: Typed = Coroutine::new(
+            Some("c08-other".to_string()),
+            move |s: &Suspender<i64, i64>, _: i64| {
+                match pre {
+                    1 => s.cancel(),
+                    2 => {
+                        let _ = s.delay_with(77, std::time::Duration::ZERO);
+                    }
+                    _ => {
+                        let me = Typed::current().expect("current");
+                        me.syscall(5, SyscallName::sleep, SyscallState::Executing).expect("enter");
+                        me.syscall(6, SyscallName::sleep, SyscallState::Suspend(999)).expect("suspend");
+                        let _ = s.until_with(6, 999);
+                    }
+                }
+                0
+            },
+            Some(64 * 1024),
+            None,
+        )
+        .expect("create other");
+        let r = other.resume_with(0);
+        em.emit(json!({"t":"pre","state": r.map(|st| state_str(&st)).unwrap_or_else(|e| format!("Err({e})"))}));
+        drop(other);
+    }
     let received: Arc<Mutex<Vec<i64>>> = Arc::new(Mutex::new(Vec::new()));
     let rec = received.clone();
     let c = case.clone();
@@ -115,7 +152,19 @@ pub fn exec(case: &Case, em: &mut Emitter) {
                 if c.panic_at == Some(j) {
                     do_panic(j);
                 }
-                let x = s.suspend_with(c.yields[j]);
+                let x = if c.sys {
+                    // yield from inside a syscall state: the value travels in the state
+                    let me = Typed::current().expect("current");
+                    me.syscall(c.yields[j] ^ 1, SyscallName::sleep, SyscallState::Executing).expect("enter syscall");
+                    me.syscall(c.yields[j], SyscallName::sleep, SyscallState::Suspend(0)).expect("syscall suspend");
+                    let x = s.suspend_with(c.yields[j]);
+                    let me = Typed::current().expect("current");
+                    me.syscall(c.yields[j], SyscallName::sleep, SyscallState::Executing).expect("syscall executing");
+                    me.running().expect("leave syscall");
+                    x
+                } else {
+                    s.suspend_with(c.yields[j])
+                };
                 rec.lock().unwrap().push(x);
             }
             if c.panic_at == Some(c.yields.len()) {
@@ -137,6 +186,10 @@ pub fn exec(case: &Case, em: &mut Emitter) {
     // one resume per argument, plus one extra resume after the end (terminal state must be sticky)
     for (j, a) in case.args.iter().enumerate() {
         let a = *a;
+        if let CoroutineState::Syscall(y, n, SyscallState::Suspend(_)) = co.state() {
+            // play the scheduler for a coroutine parked in a syscall state
+            co.syscall(y, n, SyscallState::Timeout).expect("timeout transition");
+        }
         let r = std::panic::catch_unwind(std::panic::AssertUnwindSafe(|| co.resume_with(a)));
         let s = match r {
             Ok(Ok(st)) => state_str(&st),
@@ -188,9 +241,9 @@ pub fn judge(case: &Case, res: &ChildResult, rep: &mut Report) {
             return;
         }
         if j < last_step {
-            let want = format!("Suspend({},0)", case.yields[j]);
+            let want = if case.sys { format!("Syscall({},sleep,Suspend(0))", case.yields[j]) } else { format!("Suspend({},0)", case.yields[j]) };
             if got != want {
-                rep.violation(&format!("c08.values/yield-value-echo/{lclass}"), format!("resume {j} reported {got}, expected {want}"), replay());
+                rep.violation(&format!("c08.values/yield-value-echo/{lclass}:pre{}:sys{}", case.pre, case.sys), format!("resume {j} reported {got}, expected {want}"), replay());
                 return;
             }
         } else if case.panic_at.is_none() {
@@ -277,7 +330,7 @@ pub fn cases(tier: &str) -> Vec<Case> {
             for yields in tuples(&VALS, n) {
                 for (pa, pk) in endings(n) {
                     for l in 0..3u8 {
-                        out.push(Case { args: args.clone(), yields: yields.clone(), ret: args[0].wrapping_neg(), panic_at: pa, panic_kind: pk, listener: l });
+                        out.push(Case { args: args.clone(), yields: yields.clone(), ret: args[0].wrapping_neg(), panic_at: pa, panic_kind: pk, listener: l, pre: 0, sys: false });
                     }
                 }
             }
@@ -287,13 +340,33 @@ pub fn cases(tier: &str) -> Vec<Case> {
     let a2: &[i64] = if tier == "thorough" { &VALS } else { &VALS[..4] };
     for args in tuples(a2, 3) {
         for yields in tuples(a2, 2) {
-            out.push(Case { args: args.clone(), yields: yields.clone(), ret: VALS[(args[0].unsigned_abs() % 5) as usize], panic_at: None, panic_kind: 0, listener: 0 });
+            out.push(Case { args: args.clone(), yields: yields.clone(), ret: VALS[(args[0].unsigned_abs() % 5) as usize], panic_at: None, panic_kind: 0, listener: 0, pre: 0, sys: false });
         }
     }
     for args in tuples(&VALS[..3], 3) {
         for yields in tuples(&VALS[..3], 2) {
             for (pa, pk) in endings(2).into_iter().skip(1) {
-                out.push(Case { args: args.clone(), yields: yields.clone(), ret: 5, panic_at: pa, panic_kind: pk, listener: (pk % 3) });
+                out.push(Case { args: args.clone(), yields: yields.clone(), ret: 5, panic_at: pa, panic_kind: pk, listener: (pk % 3), pre: 0, sys: false });
+            }
+        }
+    }
+    // what another coroutine did on the thread just before, and yields taken inside a syscall state
+    for pre in 0..4u8 {
+        for sys in [false, true] {
+            if pre == 0 && !sys {
+                continue;
+            }
+            for args in tuples(&VALS[..3], 3) {
+                for yields in tuples(&VALS[1..4], 2) {
+                    out.push(Case { args: args.clone(), yields: yields.clone(), ret: 9, panic_at: None, panic_kind: 0, listener: 0, pre, sys });
+                }
+            }
+            for args in tuples(&VALS, 2) {
+                for yields in tuples(&VALS, 1) {
+                    for (pa, pk) in endings(1) {
+                        out.push(Case { args: args.clone(), yields: yields.clone(), ret: 3, panic_at: pa, panic_kind: pk, listener: pre % 3, pre, sys });
+                    }
+                }
             }
         }
     }
@@ -301,7 +374,7 @@ pub fn cases(tier: &str) -> Vec<Case> {
     let a3: &[i64] = &[0, i64::MAX, i64::MIN];
     for args in tuples(a3, 4) {
         for yields in tuples(a3, 3) {
-            out.push(Case { args: args.clone(), yields: yields.clone(), ret: args[3], panic_at: None, panic_kind: 0, listener: 0 });
+            out.push(Case { args: args.clone(), yields: yields.clone(), ret: args[3], panic_at: None, panic_kind: 0, listener: 0, pre: 0, sys: false });
         }
     }
     out
